@@ -105,6 +105,14 @@ Fixpoint enc_tree (w : wshape) (s : sink) : list sx :=
    merge_into is exercised on every case (the theorems hold for every hash function) *)
 Definition model_hash (k : key) : N := (N.of_nat (length (fst k)) + snd k) mod 3.
 
+(* embedded cases: the harness picks the API by the entry's id: for the type with keep-last fields,
+   id mod 4 = 3 goes through Aggregate::insert_and_send_to, which also forwards the entry unaggregated *)
+Definition forwarded (w : wshape) (es : list entry) : list entry :=
+  match n_lasts (w_sh w) with
+  | O => []
+  | _ => filter (fun e => (e_id e) mod 4 =? 3) es
+  end.
+
 (* ---------------------------------------------------------------- entry points *)
 (* case: (0 shape tree ops): operations on a sink tree, a final flush is appended by both sides
          (1 shape entries) : Aggregate<T> (no key), closed after the inserts *)
@@ -117,7 +125,7 @@ Definition c10_run_seq (x : sx) : sx :=
       L (enc_tree w (sink_run model_hash (w_sh w) t ops))
   | _ =>
       let es := map dec_entry (sx_list (sx_arg x 1)) in
-      enc_agg w (([], 0), close_acc (agg_run (w_sh w) es))
+      L [enc_agg w (([], 0), close_acc (agg_run (w_sh w) es)); L (map (fun e => of_n (raw_id e)) (forwarded w es))]
   end.
 
 (* ---------------------------------------------------------------- the predicate on observed output *)
@@ -189,8 +197,10 @@ Definition c10_check_seq (x : sx) : sx :=
       of_bool (fst r && match snd r with [] => true | _ => false end)
   | _ =>
       let es := map dec_entry (sx_list (sx_arg case 1)) in
-      let a := dec_agg w obs in
-      of_bool (totals_exact obs && agg_okb (exact_shape w) es (snd (fst a)) && hist_okb w es (snd a))
+      let o := sx_nth obs 0 in
+      let a := dec_agg w o in
+      of_bool (totals_exact o && agg_okb (exact_shape w) es (snd (fst a)) && hist_okb w es (snd a) &&
+               list_eqb N.eqb (map sx_n (sx_list (sx_nth obs 1))) (map raw_id (forwarded w es)))
   end.
 
 (* ================================================================ worker / mutex cases *)
